@@ -106,6 +106,7 @@ func pubBytes(ps []*keys.PrivateKey) []byte {
 // acct is a standard account the harness holds the keys of: single signature (m == 0) or m-of-n.
 type acct struct {
 	contract bool  // a deployed contract with a `verify` method (no keys)
+	native   string // "notary" | "oracle": a native contract as signer
 	cost     int64 // contract: datoshi its verification consumes (observed with plenty of gas)
 	returns  bool  // contract: what `verify` returns
 	name     string
